@@ -13,7 +13,6 @@ Examples: Typical Usage
 
 from __future__ import annotations
 
-import functools
 import inspect
 import sys
 import typing
@@ -137,8 +136,9 @@ else:
             return nref._evaluate(globalns, localns, recursive_guard)
 
 
-@functools.cache
 def _resolve_module_name(ref: str, module: str | None) -> str | None:
+    # NOTE: not memoized - without an explicit module the answer depends on who is
+    #   asking (we look the name up in the caller's frames).
     if module is not None:
         return module
 
